@@ -387,6 +387,15 @@ def solve (fuel sfuel : Nat) (st : St) : St × Rat :=
   let st := satisfy sfuel st
   solveLoop fuel sfuel st maxsize (cost st)
 
+/-- `Solver.setDesiredPositions(ps)`: new targets for the variables of a solver that may have solved before (its blocks, active constraints,
+flags and pending list stay as they are; `Blocks.split` starts every pass by recomputing the block positions from the current targets) -/
+def setDesired (st : St) (ps : List Rat) : St :=
+  { st with vs := st.vs.mapIdx (fun i v => { v with d := ps.getD i v.d }) }
+
+/-- `solve()`, then for each list of new targets `setDesiredPositions(ps); solve()` on the SAME solver object -/
+def resolve (fuel sfuel : Nat) (st : St) (pss : List (List Rat)) : St × Rat :=
+  pss.foldl (fun r ps => solve fuel sfuel (setDesired r.1 ps)) (solve fuel sfuel st)
+
 def positions (st : St) : List Rat := (List.range st.vs.size).map (position st)
 
 def flagged (st : St) : List Nat := (List.range st.cs.size).filter (fun i => (getC st i).unsat)
